@@ -39,6 +39,7 @@ def run(chk: Check, proj: Project) -> None:
     s7(chk, proj, w, m)
     s9_protection_is_replaced(chk, proj)
     s10_settings_getter_is_live(chk, proj, m, cls)
+    s11_names_are_free_keys(chk, proj, m, cls)
 
 
 def s9_protection_is_replaced(chk: Check, proj: Project) -> None:
@@ -67,6 +68,34 @@ def s9_protection_is_replaced(chk: Check, proj: Project) -> None:
         chk.ob("S9", f"library:mark_protected_tags:{lib}.{attr}-replaced-not-accumulated", lm.loc(st), not reads_old,
                "the stored list is built from the argument / the built-in table only" if not reads_old else
                f"`{short(st)}` merges the new list into the one stored before: after mark_protected_tags(lib, ['alpha']) a later mark_protected_tags(lib, ['beta']) still protects 'alpha' - registering a component under a formatter that yields the start tag `alpha` raises TagProtectedError although the name is free")
+
+
+def s11_names_are_free_keys(chk: Check, proj: Project, m, cls) -> None:
+    chk.rule("S11", "a component NAME is a free dictionary key: register() itself refuses only a conflicting class (AlreadyRegistered); tag protection is asked about the TAG the formatter produced, inside the Library helper, and a Library that was never marked protects nothing (the lookup's fallback is empty) - a guard on the name, or built-in names protected by default, makes register('slot', C) fail under the default formatter / on a private Library where a dict accepts it")
+    f = m.func("ComponentRegistry.register")
+    chk.analysed(f"{m.name}:ComponentRegistry.register")
+    from ..astq import exc_class_of_raise, raises_in
+
+    rs = raises_in(f)
+    other = [r for r in rs if (exc_class_of_raise(r) or "").split(".")[-1] not in ("AlreadyRegistered",)]
+    chk.ob("S11", "component_registry:register:refuses-only-a-conflicting-class", m.loc(other[0]) if other else m.loc(f), bool(rs) and not other,
+           "the only explicit raise of register() is AlreadyRegistered" if rs and not other else
+           (f"`{short(other[0])}` under `{' and '.join(('' if p_ else 'not ') + t_ for t_, p_ in cond_atoms(other[0])) or 'no condition'}` refuses a registration for a reason a dictionary does not have: the test looks at the component NAME, but what must not be overwritten is a TAG - under the default formatter every component uses the one `component` tag, so a component called `slot` / `fill` / `provide` touches no protected tag and is still rejected" if other else "register() has no AlreadyRegistered raise"))
+    prot = [c for c in calls(f) if last_attr(c.func) == "is_tag_protected"]
+    chk.ob("S11", "component_registry:register:protection-asked-in-the-library-helper", m.loc(prot[0]) if prot else m.loc(f), not prot,
+           "register() does not ask about protection itself (register_tag does, for the formatter's tag)" if not prot else
+           f"`{short(prot[0])}` asks the protection question in register(), about `{short(prot[0].args[1]) if len(prot[0].args) > 1 else '?'}`")
+    lm, lf = proj.func("library", "is_tag_protected")
+    chk.analysed(fkey(lm, lf))
+    ga = [c for c in calls(lf) if norm(c.func) == "getattr" and len(c.args) == 3]
+    if not ga:
+        chk.undecided("S11", "library:is_tag_protected:unmarked-library-protects-nothing", lm.loc(lf), "getattr(lib, <attr>, <fallback>) not found")
+    else:
+        d = ga[0].args[2]
+        empty = (isinstance(d, (ast.List, ast.Tuple, ast.Set)) and not d.elts) or (isinstance(d, ast.Call) and norm(d.func) in ("list", "tuple", "set", "frozenset") and not d.args) or (isinstance(d, ast.Constant) and d.value in ((), ""))
+        chk.ob("S11", "library:is_tag_protected:unmarked-library-protects-nothing", lm.loc(d), empty,
+               "the fallback for a Library that was never marked is empty" if empty else
+               f"the fallback for a Library that was never passed to mark_protected_tags() is `{short(d)}`: a private Library silently protects the built-in names, and with the shorthand formatter register('slot', C) raises TagProtectedError where a plain dict accepts the key")
 
 
 def s10_settings_getter_is_live(chk: Check, proj: Project, m, cls) -> None:
@@ -374,6 +403,27 @@ def s3(chk: Check, proj: Project, w, m, cls) -> None:
         f = m.func(q)
         cfg = w.pair.cfgs.get(f)
         writes = [n for n in cfg.nodes if n.ast is not None and n.kind == "stmt" and _is_state_write(n.ast)]
+
+        def _writes_library(mod_, fn_, depth: int = 0) -> bool:
+            for c_ in ast.walk(fn_):
+                if isinstance(c_, ast.Call):
+                    if isinstance(c_.func, ast.Attribute) and c_.func.attr == "tag" and "lib" in norm(c_.func.value).lower():
+                        return True
+                    if depth < 3:
+                        tg_ = w.cg.resolve_callee(mod_, c_, c_.func)
+                        if tg_ is not None and isinstance(tg_[1], (ast.FunctionDef, ast.AsyncFunctionDef)) and tg_[1] is not fn_ and _writes_library(tg_[0], tg_[1], depth + 1):
+                            return True
+            return False
+
+        # a statement that calls an in-package helper which installs a tag in the Library is a state write too
+        for n in cfg.nodes:
+            if n.ast is None or n.kind != "stmt" or n in writes:
+                continue
+            for c in [x for x in ast.walk(n.ast) if isinstance(x, ast.Call)]:
+                tg = w.cg.resolve_callee(m, c, c.func)
+                if tg is not None and isinstance(tg[1], (ast.FunctionDef, ast.AsyncFunctionDef)) and _writes_library(tg[0], tg[1]):
+                    writes.append(n)
+                    break
         raisers = []
         for n in cfg.nodes:
             if n.ast is None or n.kind in ("def",):
